@@ -58,10 +58,11 @@ def gen(ctx: common.Ctx, n: int) -> Iterator[dict[str, Any]]:
                "_case": f"x:typedgen{j}", "_ops": ops2}
 
 
-def _simplified(case: dict[str, Any]) -> bool:
+def _simplified(case: dict[str, Any], out_before: str = "") -> bool:
     """mypy skips expensive message details (suggestions, notes) on lines that carry any ignore comment
     (Errors.prefer_simple_messages): the surviving diagnostic then has the same code and a shorter text."""
     import ast as _ast
+    from vlib import diag as _d
     gone = [b for b in case["bad"] if b.startswith("unrelated diagnostic disappeared: ")]
     new = [b for b in case["bad"] if b.startswith("new diagnostic appeared: ")]
     if case["kind"] != "ignore" or not case["codes"] or len(gone) + len(new) != len(case["bad"]) or not new:
@@ -71,18 +72,19 @@ def _simplified(case: dict[str, Any]) -> bool:
         n = [_ast.literal_eval(b.split(": ", 1)[1]) for b in new]
     except Exception:
         return False
-    code = lambda m: (re.findall(r"\[([a-z0-9-]+)\]$", m) or [""])[0]
+    before = [(e["file"], e["line"], e["sev"], re.sub(r"  \[[a-z0-9-]+\]$", "", e["msg"])) for e in _d.parse(out_before)]
     for y in n:
         if y[1] != case["line"]:
             return False
-        if not any(x[:3] == y[:3] and code(x[3]) == code(y[3]) and len(y[3]) < len(x[3]) for x in g):
+        # the detailed message of run 1 starts with the simplified one of run 2 (e.g. '...; did you mean "x"?' dropped)
+        if not any(x[:3] == tuple(y[:3]) and x[3] != y[3] and x[3].startswith(y[3].rstrip("?.")) for x in before):
             return False
-    # notes that belonged to the detailed message may disappear with it
+    # the detailed message itself, and notes that belonged to it, disappear with it - all on the ignored line
     return all(x[1] == case["line"] for x in g)
 
 
-def mech(bad: str, case: dict[str, Any]) -> str:
-    if _simplified(case):
+def mech(bad: str, case: dict[str, Any], out_before: str = "") -> str:
+    if _simplified(case, out_before):
         return "ignore:coded:message-simplified-on-line-with-nonmatching-ignore(prefer_simple_messages)"
     kind = case["kind"] + (":bare" if case["kind"] == "ignore" and not case["codes"] else ":coded" if case["kind"] == "ignore" else "")
     what = bad.split(":")[0]
@@ -129,7 +131,7 @@ def run(ctx: common.Ctx) -> None:
                     if case["n_vanish"] and case["n_stay"]:
                         ctx.nontriv(t["_case"], tuple(t["_ops"]), case["kind"], case["line"], tuple(case["codes"] or []))
                     if case["bad"]:
-                        ctx.violation(mech(case["bad"][0], case), "; ".join(case["bad"])[:400],
+                        ctx.violation(mech(case["bad"][0], case, res["out0"]), "; ".join(case["bad"])[:400],
                                       {"task": t, "case": case, "out_before": res["out0"]}, case=f"{t['_case']}:{case['kind']}@{case['line']}:{','.join(case['codes'] or [])}")
                     elif case["n_vanish"] and case["n_stay"]:
                         ctx.sample({"program": t["_case"], "kind": case["kind"], "line": case["line"], "codes": case["codes"],
